@@ -289,6 +289,104 @@ impl Check for SingleFault {
 }
 
 // ---------------------------------------------------------------------------------------------
+// part 2b: 2-12 independent statement-level violations -> exactly the predicted messages
+// (one diagnostic must not hide, end or deduplicate another)
+// ---------------------------------------------------------------------------------------------
+
+pub struct TwoFaults;
+
+struct ManyCase {
+    kinds: Vec<usize>,
+    /// after the j-th injection: (text, the j predicted messages)
+    steps: Vec<(String, Vec<String>)>,
+}
+
+fn decode_many(bytes: &[u8]) -> ManyCase {
+    let mut s = Src::new(bytes);
+    // 2 violations in most cases, up to 12 in a third of them
+    let k = if s.chance(2, 3) { 2 } else { 3 + s.below(10) };
+    let cfg = GenCfg { max_decls: 5, budget: 120, ..GenCfg::default() };
+    let mut prog = gen_prog(&mut s, &cfg);
+    let mut kinds = Vec::new();
+    let mut messages: Vec<String> = Vec::new();
+    let mut steps = Vec::new();
+    for _ in 0..k {
+        // statement-level kinds only (indices 10..): they are placed in statement lists and do
+        // not interact through declarations
+        let kind = 10 + s.below(KINDS.len() - 10);
+        let Some(f) = faults::inject(&mut s, &prog, kind) else { break };
+        kinds.push(kind);
+        messages.push(f.message.clone());
+        prog = f.prog;
+        let r = render(&prog);
+        let style = *s.pick(&[Style::Spaced, Style::Commented, Style::Plain]);
+        let l = gen_layout(&r.toks, &mut s, style);
+        let mut want = messages.clone();
+        want.sort();
+        steps.push((lay(&r.toks, &l).text, want));
+    }
+    ManyCase { kinds, steps }
+}
+
+impl Check for TwoFaults {
+    fn part(&self) -> &'static str {
+        "several-faults"
+    }
+    fn max_len(&self) -> usize {
+        3500
+    }
+    fn run(&self, bytes: &[u8]) -> CaseResult {
+        let case = decode_many(bytes);
+        if case.steps.len() < 2 {
+            let mut r = CaseResult::new(fnv(bytes));
+            r.excluded.push("injector-not-applicable".to_string());
+            return r;
+        }
+        let last = &case.steps[case.steps.len() - 1];
+        let mut r = CaseResult::new(fnv(last.0.as_bytes()));
+        r.label(format!("violations:{}", case.steps.len()));
+        r.evals = 0;
+        let names: Vec<&str> = case.kinds.iter().map(|k| KINDS[*k]).collect();
+        for (j, (text, want)) in case.steps.iter().enumerate() {
+            r.evals += 1;
+            let errs = match analyse(text) {
+                Ok(e) => e,
+                Err(sig) => {
+                    r.fail(sig, "analysis of a program with several violations panics", json!({ "text": text }));
+                    return r;
+                }
+            };
+            let mut got: Vec<String> = errs.iter().map(|e| e.1.to_string().trim().to_string()).collect();
+            got.sort();
+            if &got != want {
+                if j == 0 {
+                    // a single violation is the subject of the single-fault part
+                    r.excluded.push(format!("first-fault-alone-not-as-predicted:{}", names[0]));
+                    return r;
+                }
+                r.fail(
+                    format!("several-faults-wrong-diagnostics|{}", if got.len() < want.len() { "fewer" } else if got.len() > want.len() { "more" } else { "other" }),
+                    format!("a program with {} independent violations ({:?}) gets {} diagnostics {:?}, expected {:?}; with {} of them it got exactly the predicted ones", j + 1, &names[..=j], got.len(), show(&errs), want, j),
+                    json!({ "text": text, "kinds": &names[..=j], "previous_step": case.steps[j - 1].0 }),
+                );
+                return r;
+            }
+            for e in &errs {
+                if let Some(p) = published_range_problem(text, e) {
+                    r.fail("range-outside-document|several-faults", p, json!({ "text": text }));
+                }
+            }
+        }
+        r.nontrivial = true;
+        r
+    }
+    fn describe(&self, bytes: &[u8]) -> Value {
+        let c = decode_many(bytes);
+        json!({ "kinds": c.kinds.iter().map(|k| KINDS[*k]).collect::<Vec<_>>(), "text": c.steps.last().map(|b| b.0.clone()) })
+    }
+}
+
+// ---------------------------------------------------------------------------------------------
 // part 3: missing-token syntax faults
 // ---------------------------------------------------------------------------------------------
 
@@ -440,7 +538,7 @@ impl Check for MissingToken {
 }
 
 pub fn checks() -> Vec<Box<dyn Check>> {
-    vec![Box::new(Valid), Box::new(SingleFault), Box::new(MissingToken)]
+    vec![Box::new(Valid), Box::new(SingleFault), Box::new(TwoFaults), Box::new(MissingToken)]
 }
 
 pub fn run(ctx: &Ctx) -> i32 {
@@ -448,12 +546,13 @@ pub fn run(ctx: &Ctx) -> i32 {
         crate::corpus_part(ctx, &checks()),
         run_pbt(ctx, &Valid, ctx.n(30_000, 500_000)),
         run_pbt(ctx, &SingleFault, ctx.n(27 * 700, 27 * 10_000)),
+        run_pbt(ctx, &TwoFaults, ctx.n(12_000, 200_000)),
         run_pbt(ctx, &MissingToken, ctx.n(15_000, 200_000)),
     ];
     finish(
         ctx,
         parts,
-        "part 1: well-typed programs (1-8 declarations, nested arrays, reference parameters, shadowing locals, nested control flow) in random layouts with comments must have no diagnostic (directly and, for 1/8 of the cases, through the document broker's publishDiagnostics); part 2: the same programs plus valid helper declarations plus ONE injected violation of one of the 27 build/semantic rules at a random place (any procedure, any block depth, optionally buried in a larger expression) must have exactly one diagnostic, with the rule's message, on the culprit; part 3: one token of a curated list deleted -> the matching missing-token message at the end of the preceding token, all syntax diagnostics inside the damaged declaration; non-trivial = comments/shadowing/arrays present (part 1), fault nested or not in the first declaration or comments present (part 2), every case (part 3); distinct = distinct text",
+        "part 1: well-typed programs (1-8 declarations, nested arrays, reference parameters, shadowing locals, nested control flow) in random layouts with comments must have no diagnostic (directly and, for 1/8 of the cases, through the document broker's publishDiagnostics); part 2b: 2-12 independent statement-level violations (any of the 17 statement-level kinds, injected one after the other, anywhere) must give exactly the predicted messages after every injection (one diagnostic must not hide, end, cap or deduplicate another); part 2: the same programs plus valid helper declarations plus ONE injected violation of one of the 27 build/semantic rules at a random place (any procedure, any block depth, optionally buried in a larger expression) must have exactly one diagnostic, with the rule's message, on the culprit; part 3: one token of a curated list deleted -> the matching missing-token message at the end of the preceding token, all syntax diagnostics inside the damaged declaration; non-trivial = comments/shadowing/arrays present (part 1), fault nested or not in the first declaration or comments present (part 2), every case (part 3); distinct = distinct text",
         &[
             "layouts use LF and CRLF line ends only (lone CR is C08's subject)",
             "for rules that name an identifier the diagnostic must cover exactly that identifier token; for the others it must lie within the culprit construct (its leading comments included), start and end on token boundaries and reach its first token",
